@@ -250,7 +250,13 @@ class MemoryFileSystem(FileSystem):
     self._prefix = prefix
 
   def _internal_path(self, path: Union[str, os.PathLike[str]]) -> str:
-    return '/' + resolve_path(path).lstrip(self._prefix)
+    path = resolve_path(path)
+    # NOTE: strip the mount prefix as a prefix (`str.lstrip` would strip any
+    # leading run of the prefix's characters, e.g. '/mem/m.json' -> '.json').
+    prefix = self._prefix.rstrip('/')
+    if path == prefix or path.startswith(prefix + '/'):
+      path = path[len(prefix):]
+    return '/' + path.lstrip('/')
 
   def _locate(self, path: Union[str, os.PathLike[str]]) -> Any:
     current = self._root
@@ -268,7 +274,9 @@ class MemoryFileSystem(FileSystem):
     file = self._locate(path)
     if isinstance(file, dict):
       raise IsADirectoryError(path)
-    if 'w' in mode and file is None:
+    if 'w' in mode or ('a' in mode and file is None):
+      # 'w' always starts from an empty file (truncation); 'a' creates the
+      # file when it does not exist.
       parent_dir, name = self._parent_and_name(path)
       if isinstance(parent_dir, dict):
         buffer = io.BytesIO() if 'b' in mode else io.StringIO()
@@ -277,6 +285,8 @@ class MemoryFileSystem(FileSystem):
 
     if file is None:
       raise FileNotFoundError(path)
+    if 'a' in mode:
+      file.seek(0, 2)
     return file
 
   def chmod(self, path: Union[str, os.PathLike[str]], mode: int) -> None:
